@@ -713,6 +713,11 @@ class ConsensusRun(object):
                         tag, who, sorted(stale), sorted(want_flags)))
                 sim.fail('C16.relay-attr-flags', '%s: %s has flags %r, the document says %r' % (
                     tag, who, sorted(got_flags), sorted(want_flags)))
+            # state derived from the flags follows the latest document as well
+            named = 'named' in want_flags
+            if bool(o.name_is_unique) != named or o.unique_name != (e.nick if named else o.id_hex):
+                sim.fail('C16.relay-attr-unique_name', '%s: %s has name_is_unique=%r unique_name=%r, the document %s the Named flag' % (
+                    tag, who, o.name_is_unique, o.unique_name, 'gives it' if named else 'does not give it'))
             # IPv6: multiset of bare addresses
             g6 = o.ip_v6
             if isinstance(g6, (str, bytes)):
